@@ -8,6 +8,7 @@ import (
 	"fmt"
 	"os"
 	"sync"
+	"time"
 )
 
 func work(n int) int {
@@ -107,6 +108,90 @@ func racy(n int) {
 	fmt.Println("racy", shared, trace)
 }
 
+// loadfiles: the shape "read and decode the files side by side, register each result as it
+// arrives": the sent VALUE is computed by a call that does real I/O and a lot of work, many
+// goroutines are alive at once, and the receiver sits in the header of an if statement.
+func decode(path string, i int) [2]int {
+	b, _ := os.ReadFile(path)
+	return [2]int{i, len(b) + work(200*(i%5+1))%3}
+}
+
+func loadfiles(n int) {
+	loaded := make(chan [2]int, n)
+	for i := 0; i < n; i++ {
+		go func() {
+			loaded <- decode(os.Args[0], i)
+		}()
+	}
+	var order []int
+	for range n {
+		if v := <-loaded; v[1] >= 0 {
+			order = append(order, v[0])
+		}
+	}
+	fmt.Println("loadfiles", order)
+}
+
+// once: several goroutines race for a sync.Once whose function has a scheduling point in it;
+// a result channel is received from with the two-value form.
+func once(n int) {
+	var o sync.Once
+	var wg sync.WaitGroup
+	res := make(chan int, n)
+	winner := -1
+	for i := 0; i < n; i++ {
+		wg.Add(1)
+		go func(i int) {
+			defer wg.Done()
+			work(100 * (n - i))
+			o.Do(func() {
+				winner = i
+				tmp := make(chan int, 1)
+				tmp <- work(500)
+				<-tmp
+			})
+			res <- i
+		}(i)
+	}
+	wg.Wait()
+	close(res)
+	var order []int
+	for {
+		v, ok := <-res
+		if !ok {
+			break
+		}
+		order = append(order, v)
+	}
+	fmt.Println("once", winner, order)
+}
+
+// deadlock: the worker blocks for good (it locks a mutex twice). With a watchdog timer
+// pending the process sleeps until the timer fires (ruby-ti's main.go has this shape);
+// without one the Go runtime ends the process.
+func deadlock(withTimer bool) {
+	done := make(chan bool)
+	go func() {
+		var mu sync.Mutex
+		work(300)
+		mu.Lock()
+		mu.Lock()
+		done <- true
+	}()
+	if withTimer {
+		select {
+		case <-done:
+			fmt.Println("deadlock done")
+		case <-time.After(500 * time.Millisecond):
+			fmt.Println("deadlock watchdog")
+			os.Exit(1)
+		}
+		return
+	}
+	<-done
+	fmt.Println("deadlock done")
+}
+
 func main() {
 	mode := "all"
 	if len(os.Args) > 1 {
@@ -121,10 +206,20 @@ func main() {
 		rendezvous(4)
 	case "racy":
 		racy(3)
+	case "loadfiles":
+		loadfiles(35)
+	case "once":
+		once(5)
+	case "deadlock-timer":
+		deadlock(true)
+	case "deadlock-plain":
+		deadlock(false)
 	default:
 		fanout(5)
 		collect(6)
 		rendezvous(4)
 		racy(3)
+		loadfiles(35)
+		once(5)
 	}
 }
